@@ -861,6 +861,16 @@ class SetAlg:
                 args.append(a)
             if ch:
                 return self.canon_opaque(("call", t[1], tuple(args), t[3]))
+        if h == "call" and isinstance(t[1], str) and t[1].split(".")[-1] in EXTERNAL_SIGNATURES and len(t[2]) > 1:
+            # groupby(xs, f) is groupby(xs, key=f): positional arguments of well-known library routines get their parameter names
+            names = EXTERNAL_SIGNATURES[t[1].split(".")[-1]]
+            if len(t[2]) <= len(names):
+                kw = dict(t[3])
+                for nm, a in zip(names[1:], t[2][1:]):
+                    kw[nm] = a
+                return self.canon_opaque(("call", t[1], (t[2][0],), tuple(sorted(kw.items()))))
+        if h == "call" and isinstance(t[1], str) and t[1].split(".")[-1] == "tqdm" and t[2]:
+            return self.canon(t[2][0])  # a progress bar around X yields X
         if h == "meth" and t[2] == "keys" and not t[3] and not t[4]:
             return self.canon(t[1])  # d.keys(), as a collection, is d
         if h == "accum":
@@ -966,6 +976,7 @@ def _discard_form(t: Term) -> Term:
     return ("accum", "effect", t[2], ("deep", path, "discard", t[3][3]), tuple(gens), t[5])
 
 
+EXTERNAL_SIGNATURES = {"groupby": ("iterable", "key"), "sorted": ("iterable", "key", "reverse"), "enumerate": ("iterable", "start")}
 ITER_CONSUMERS = {"combinations", "permutations", "product", "chain", "from_iterable", "sorted", "enumerate", "zip", "sum", "min", "max",
                   "combinations_with_replacement", "reversed", "triplewise", "pairwise"}
 
@@ -976,6 +987,17 @@ def accum_as_comp(t: Term) -> Term | None:
     if len(t) < 6 or t[5] != ("const", False):
         return None
     kind, res, payload, gens = t[1], t[2], t[3], t[4]
+    while payload[0] == "call" and payload[1] in ("iter", "list", "tuple") and len(payload[2]) == 1 and not payload[3]:
+        payload = payload[2][0]
+    if kind == "concat" and res == ("listlit", ()) and payload[0] == "listlit" and len(payload[1]) == 0:
+        return ("listlit", ())  # nothing is added in any iteration
+    if kind == "concat" and payload[0] == "listlit" and len(payload[1]) == 0:
+        return res
+    if kind == "concat" and res == ("listlit", ()) and payload[0] in ("accum", "comp") :
+        inner = accum_as_comp(payload) if payload[0] == "accum" else (payload if payload[1] in ("list", "gen") else None)
+        if inner is not None and inner[0] == "comp":
+            # a list built per iteration and appended whole: one comprehension over both levels
+            return ("comp", "list", inner[2], tuple(gens) + tuple(inner[3]))
     if kind == "concat" and res == ("listlit", ()) and payload[0] == "listlit" and len(payload[1]) == 1 and payload[1][0][0] != "star":
         return ("comp", "list", payload[1][0], tuple(gens))
     if kind == "effect" and payload[0] == "setitem" and len(payload) == 3:
